@@ -6,9 +6,21 @@ VARIABLES vs, generic
 Kinds == {[k |-> "unit", tys |-> <<>>], [k |-> "tuple", tys |-> <<"A">>], [k |-> "tuple", tys |-> <<"B">>],
           [k |-> "tuple", tys |-> <<"A", "B">>], [k |-> "tuple", tys |-> <<"B", "A">>]}
          \cup (IF AllowNamed THEN {[k |-> "named", tys |-> <<"A">>], [k |-> "named", tys |-> <<"A", "B">>]} ELSE {})
+\* tuple / named variants with field-level #[try_into(ignore)]: leading, trailing and MIDDLE ignored fields, with
+\* equal neighbouring types so that binding the wrong field still type-checks
+FKinds == {[k |-> "tuple", tys |-> <<"A", "B">>, fign |-> <<TRUE, FALSE>>],
+           [k |-> "tuple", tys |-> <<"A", "A">>, fign |-> <<TRUE, FALSE>>],
+           [k |-> "tuple", tys |-> <<"A", "A">>, fign |-> <<FALSE, TRUE>>],
+           [k |-> "tuple", tys |-> <<"A", "A", "A">>, fign |-> <<FALSE, TRUE, FALSE>>],
+           [k |-> "tuple", tys |-> <<"B", "A", "A">>, fign |-> <<TRUE, TRUE, FALSE>>]}
+          \cup (IF AllowNamed THEN {[k |-> "named", tys |-> <<"A", "A">>, fign |-> <<TRUE, FALSE>>]} ELSE {})
+NoFign(n) == [j \in 1..n |-> FALSE]
 Init == vs = <<>> /\ generic \in BOOLEAN
-Add == Len(vs) < MaxVariants /\ \E kd \in Kinds, ig \in BOOLEAN :
-          vs' = Append(vs, [k |-> kd.k, tys |-> kd.tys, ign |-> ig]) /\ UNCHANGED generic
+Add == /\ Len(vs) < MaxVariants
+       /\ \/ \E kd \in Kinds, ig \in BOOLEAN :
+                vs' = Append(vs, [k |-> kd.k, tys |-> kd.tys, ign |-> ig, fign |-> NoFign(Len(kd.tys))])
+          \/ \E kd \in FKinds : vs' = Append(vs, [k |-> kd.k, tys |-> kd.tys, ign |-> FALSE, fign |-> kd.fign])
+       /\ UNCHANGED generic
 Next == Add
 Spec == Init /\ [][Next]_<<vs, generic>>
 
@@ -20,5 +32,6 @@ Emit == EmitCases /\ Live(vs) # {} =>
     PrintT(<<"CASE", ToJson([vs |-> vs, generic |-> generic, targets |-> Targets,
                              is |-> IsTable,
                              unwrap |-> [a \in 1..Len(vs) |-> [x \in 1..Len(vs) |-> DocUnwrap(vs, a, x)[1]]],
+                             liveIdx |-> [a \in 1..Len(vs) |-> LiveIdx(vs[a])],
                              okTargets |-> [a \in 1..Len(vs) |-> {T \in Targets : DocTryInto(vs, a, T)[1] = "ok"}]])>>)
 =============================================================================
